@@ -1,6 +1,6 @@
 import json
 from mindsdb_sql.parser.ast.base import ASTNode
-from mindsdb_sql.parser.utils import indent
+from mindsdb_sql.parser.utils import indent, dump_param_value
 from mindsdb_sql.parser.ast.select import Identifier
 from mindsdb_sql.parser.ast.select.operation import Object
 
@@ -101,13 +101,13 @@ class CreatePredictorBase(ASTNode):
             for key, value in self.using.items():
                 if isinstance(value, Object):
                     args = [
-                        f'{k}={json.dumps(v)}'
+                        f'{k}={dump_param_value(v)}'
                         for k, v in value.params.items()
                     ]
                     args_str = ', '.join(args)
                     value = f'{value.type}({args_str})'
                 else:
-                    value = json.dumps(value)
+                    value = dump_param_value(value)
 
                 using_ar.append(f'{Identifier(key).to_string()}={value}')
 
